@@ -109,3 +109,29 @@ def run(ctx):
             ok = b.lo is not None and b.lo >= 0 and b.hi is not None and b.hi <= tl - 1
             ctx.ob('CLAMP', '%s:%s[%s]#%d' % (fn.name, tab, fn.s(n['kids'][1])[:30], i), ok, fn.loc(n), 'index %s in %s..%s, table %s has %d entries' % (fn.s(n['kids'][1]), b.lo, b.hi, tab, tl), None)
     ctx.notes.append('CLAMP: %d table subscripts whose index is read from an array element or struct field are not decided: %s' % (len(skipped), skipped[:6]))
+
+    # ---- MS ADPCM: the block predictor index read from the file selects a row of the 7-entry coefficient tables
+    ctx.rule('BPRED-RANGE', 'msadpcm_get_bpred returns an index within the AdaptCoeff tables on every path (an out-of-range byte from the file is replaced, always, not only the first time), and '
+             'msadpcm_decode_block subscripts AdaptCoeff1/2 only with values that came from it', floor=4)
+    from engine.bounds import Bounds as _B
+    from engine.effects import Effects as _E
+    from engine.util import assigned_lvalues as _al
+    g = prog.fn('msadpcm_get_bpred', 'ms_adpcm.c')
+    alen = prog.global_('AdaptCoeff1')['alen']
+    bd = _B(prog, g, _E(prog))
+    rets = g.cfg.returns()
+    ctx.require(rets, 'msadpcm_get_bpred has no return')
+    for k, r in enumerate(rets):
+        e = g.unwrap(g.N[r['kids'][0]])
+        b = bd.ev_at(e, g.cfg.point(r))
+        ok = b.lo is not None and b.lo >= 0 and b.hi is not None and b.hi <= alen - 1
+        ctx.ob('BPRED-RANGE', 'msadpcm_get_bpred:return#%d' % (k + 1), ok, g.loc(r), 'returns %s in [%s, %s]; table has %d rows%s' % (g.s(e), b.lo, b.hi, alen, '' if ok else
+               ' — a predictor byte >= %d from the file reaches the coefficient tables: out-of-bounds read, the block decodes with garbage coefficients' % alen), repr(b))
+    d = prog.fn('msadpcm_decode_block', 'ms_adpcm.c')
+    src_ok = [(lv, a, r) for lv, a, r in _al(d) if lv.startswith('bpred')]
+    bad = [a for lv, a, r in src_ok if r is None or d.unwrap(r).get('callee') != 'msadpcm_get_bpred']
+    ctx.ob('BPRED-RANGE', 'msadpcm_decode_block:bpred-source', bool(src_ok) and not bad, d.loc(bad[0]) if bad else d.loc(d.body), '%d assignment(s) to bpred [], %s' % (len(src_ok), 'all from msadpcm_get_bpred' if not bad else 'one NOT from msadpcm_get_bpred'), None)
+    subs = [n for n in d.walk() if n['k'] == 'ArraySubscriptExpr' and d.s(d.N[n['kids'][0]]) in ('AdaptCoeff1', 'AdaptCoeff2')]
+    badi = [n for n in subs if not d.s(d.unwrap(d.N[n['kids'][1]])).startswith('bpred')]
+    ctx.ob('BPRED-RANGE', 'msadpcm_decode_block:index', bool(subs) and not badi, d.loc(badi[0]) if badi else d.loc(d.body), '%d subscripts of AdaptCoeff1/2, %s' % (len(subs), 'all indexed by bpred []' if not badi else 'one indexed by something else'), None)
+
